@@ -9,7 +9,7 @@ from vf.verify import Case
 from pony import orm
 from pony.orm import core
 
-BOUND = '48 raw SQL statements (7 entry points, 12 shapes of $-expression, 7 parameter types), each alone and every ordered pair'
+BOUND = '49 raw SQL statements (7 entry points, 12 shapes of $-expression, 7 parameter types), each alone and every ordered pair'
 _M = None
 G_LIMIT = 2
 
@@ -122,6 +122,13 @@ def statements():
         a = 100
         return _ids(db.select('id from Item where p = $a', {'a': 1})), _ids(db.select('id from Item where p = $a', {}, {'a': 2}))
     add('explicit globals / locals win over the frame', explicit_dicts, ([2], [3]))
+    def explicit_dicts_by_sql():
+        a = 100
+        g = {'a': 1, 'only_g': 4}; l = {'a': 2, 'only_l': 5}                      # a name in both mappings means the LOCAL one, as in eval(code, globals, locals)
+        return ([i.id for i in T.select_by_sql('select * from Item where p = $a', g, l)], T.get_by_sql('select * from Item where p = $a', g, l).id,
+                [i.id for i in T.select_by_sql('select * from Item where p = $only_g or p = $only_l order by id', g, l)], _ids(db.select('id from Item where p = $a', g, l)),
+                [i.id for i in T.select_by_sql('select * from Item where p = $a', g)])
+    add('explicit globals AND locals for select_by_sql / get_by_sql', explicit_dicts_by_sql, ([3], 3, [5, 6], [3], [2]))
     # raw_sql fragments inside queries
     def fragment_with_query_params():
         a = 1; b = 4; name = 'n3'
